@@ -226,11 +226,11 @@ def broken_cases(quick):
 
 
 def run(ctx):
-    n = 2500 if ctx.quick else 40000
+    n = 15000 if ctx.quick else 150000
     ctx.hyp('strat_rated', n, label=1)
-    ctx.hyp('strat_unknown_mix', 400 if ctx.quick else 6000, label=2)
-    ctx.hyp('strat_empty_names', 500 if ctx.quick else 8000, label=3)
-    bc = broken_cases(ctx.quick)
+    ctx.hyp('strat_unknown_mix', 3000 if ctx.quick else 30000, label=2)
+    ctx.hyp('strat_empty_names', 3000 if ctx.quick else 30000, label=3)
+    bc = broken_cases(False)     # every truncation offset in both tiers (cheap)
     ctx.map(bc)
     from ssh_audit.builtin_policies import BUILTIN_POLICIES
     pc = []
